@@ -1,1 +1,29 @@
-fn main(){}
+mod io;
+mod mqtt;
+mod opts;
+mod session;
+mod sim;
+
+use std::io::Write;
+
+fn main() {
+    let args: Vec<String> = std::env::args().collect();
+    sim::install_quiet_panic_hook();
+    let cmd = args.get(1).map(|s| s.as_str()).unwrap_or("");
+    let code = match cmd {
+        "smoke" => {
+            let lines = session::smoke();
+            let out = std::io::stdout();
+            let mut o = out.lock();
+            for l in lines {
+                writeln!(o, "{}", l).unwrap();
+            }
+            0
+        }
+        _ => {
+            eprintln!("usage: pvh <smoke|...>");
+            2
+        }
+    };
+    std::process::exit(code);
+}
